@@ -37,7 +37,9 @@ theorem tables_match_source :
     (∀ τ ∈ Ty.all, τ.id ∉ Gen.CEval.floatTypes) ∧
     Gen.CEval.unsignedVariants = (Ty.all.filter Ty.isSigned).map (fun τ => (τ.id, τ.unsignedVariant.id)) ∧
     Gen.CEval.typeNames = Spec.CInt.Ty.all.map (fun τ => (τ.name, (ofSpecTy τ).id)) ∧
-    Gen.CEval.sizeType = sizeT.id := by
+    Gen.CEval.sizeType = sizeT.id ∧
+    Gen.CEval.ptrFormat = ptrFmt ∧ Gen.CEval.ptrSize = ptrSize ∧ Gen.CEval.enumSize = PackTy.enum.size ∧
+    ("ptr" ∈ Gen.CEval.signedTypes) = (PackTy.ptr.signedTid = true) := by
   decide +kernel
 
 /-! ### typing and value of every expression -/
@@ -89,6 +91,25 @@ theorem pack_converts (τ : Spec.CInt.Ty) (v : Int) :
     pack (ofSpecTy τ) (Spec.CInt.convert τ v) = .ok (Spec.CInt.bytesLE τ (Spec.CInt.convert τ v)) :=
   ⟨Proofs.CEval.pack_total _ v, Proofs.CEval.pack_spec τ (Proofs.CEval.convert_inRange τ v)⟩
 
+/-- `CContext.pack` on EVERY type it accepts besides floats — the integer basic types, enum types (packed as
+    `int`) and pointer types (the unsigned pointer-sized format) — and every integer: never raises; an enum
+    object gets the image of the value converted to `int`, a pointer the image of the value converted to the
+    64-bit unsigned type. -/
+theorem pack_converts_every_type (t : PackTy) (v : Int) :
+    (∃ bs, packAny t v = .ok bs) ∧
+    packAny .enum v = .ok (Spec.CInt.bytesLE .int (Spec.CInt.convert .int v)) ∧
+    packAny .ptr v = .ok (Spec.CInt.bytesLE .ulong (Spec.CInt.convert .ulong v)) :=
+  ⟨Proofs.CEval.packAny_total t v, Proofs.CEval.packAny_enum_spec v, Proofs.CEval.packAny_ptr_spec v⟩
+
+/-- **Initialiser of an enum object / of a pointer.** `enum E x = e;` and `T *p = (T *)e;` -/
+theorem enum_initializer_correct (e : Expr) (bs : List Nat) (h : Spec.CInt.initBytesEnum e = some bs) :
+    initializerEnum (render e) = .ok bs :=
+  Proofs.CEval.initializerEnum_spec e bs h
+
+theorem pointer_initializer_correct (e : Expr) (bs : List Nat) (h : Spec.CInt.initBytesPtr e = some bs) :
+    initializerPtr (render e) = .ok bs :=
+  Proofs.CEval.initializerPtr_spec e bs h
+
 /-! ### non-vacuity: concrete non-trivial instances of the hypotheses (tests, labelled as such) -/
 
 section examples
@@ -108,6 +129,11 @@ example : Spec.CInt.eval (.bin .lt (neg (.lit .dec .ll 1)) (.lit .dec .ul 1)) = 
 example : Spec.CInt.typeOf (neg (lit 2147483648)) = some .long := by decide +kernel
 example : Spec.CInt.caseLabel .uchar (.bin .add (neg (lit 1)) (lit 300)) = some 299 := by decide +kernel
 example : Spec.CInt.arrayBound (.cond (lit 6) (.lit .hexoct .ull 11) (lit 6)) = some 11 := by decide +kernel
+-- `enum status last = -1;` is ff ff ff ff; `char *p = (char *)-1;` is eight ff
+example : Spec.CInt.initBytesEnum (neg (lit 1)) = some [0xff, 0xff, 0xff, 0xff] := by decide +kernel
+example : initializerEnum (render (neg (lit 1))) = .ok [0xff, 0xff, 0xff, 0xff] := by decide +kernel
+example : packAny .enum 4294967295 = .ok [0xff, 0xff, 0xff, 0xff] := by decide +kernel
+example : packAny .ptr (-1) = .ok [0xff, 0xff, 0xff, 0xff, 0xff, 0xff, 0xff, 0xff] := by decide +kernel
 -- undefined behaviour has no value: INT_MAX + 1, 1 << 40, 1 / 0; but `0 && 1/0` is 0
 example : Spec.CInt.eval (.bin .add (lit 2147483647) (lit 1)) = none := by decide +kernel
 example : Spec.CInt.eval (.bin .shl (lit 1) (lit 40)) = none := by decide +kernel
